@@ -295,7 +295,7 @@ def table_rules(repo, rep):
     rep.floor('R-TABLE', 130, '120 table entries plus rotation-matrix entries')
 
 
-def run(repo, rep):
+def _run(repo, rep):
     alg.reset()
     # the two local-frame conversions take their position in any angle notation: both must convert it (siblings agree)
     from .common import angle_param_rule
@@ -312,6 +312,14 @@ def run(repo, rep):
         vcv_rules(repo, rep, Rr)
         ellipse_rules(repo, rep, orc, Rr)
     table_rules(repo, rep)
+
+
+def run(repo, rep):
+    from ..symval import INPLACE_EVENTS
+    del INPLACE_EVENTS[:]
+    _run(repo, rep)
+    # in-place array updates met while evaluating the functions above (element type follows the caller's numbers)
+    common.dtype_rule(repo, rep, [('geodepy.statistics', 'vcv_local2cart'), ('geodepy.statistics', 'vcv_cart2local'), ('geodepy.statistics', 'rotation_matrix'), ('geodepy.statistics', 'error_ellipse'), ('geodepy.statistics', 'relative_error')])
 
 
 def controls(repo):
